@@ -44,6 +44,25 @@ static int (*real_open)(const char *, int, ...);
 static int (*real_openat)(int, const char *, int, ...);
 static int (*real_openat64)(int, const char *, int, ...);
 
+/* JSHIM_PARK="<call>:<nth>:<fifo>": at the nth occurrence of <call> (open, write, fsync, mmap, close) on
+ * the database file, create <fifo>.at and block until somebody opens <fifo> for writing */
+static char park_call[16];
+static int park_nth = 0, park_count = 0;
+static char park_path[512];
+
+static void maybe_park(const char *call) {
+    if (park_nth <= 0 || strcmp(call, park_call) != 0) return;
+    park_count++;
+    if (park_count != park_nth) return;
+    char at[560];
+    snprintf(at, sizeof at, "%s.at", park_path);
+    int (*o)(const char *, int, ...) = real_open64 ? real_open64 : real_open;
+    int fd = o(at, O_WRONLY | O_CREAT, 0644);
+    if (fd >= 0) real_close(fd);
+    int f = o(park_path, O_RDONLY); /* blocks until a writer opens the fifo */
+    if (f >= 0) real_close(f);
+}
+
 static void init(void) {
     if (inited) return;
     inited = 1;
@@ -60,6 +79,17 @@ static void init(void) {
     real_openat = dlsym(RTLD_NEXT, "openat");
     real_openat64 = dlsym(RTLD_NEXT, "openat64");
     pat = getenv("JSHIM_PATH");
+    const char *pk = getenv("JSHIM_PARK");
+    if (pk) {
+        const char *c1 = strchr(pk, ':');
+        const char *c2 = c1 ? strchr(c1 + 1, ':') : NULL;
+        if (c1 && c2 && (size_t)(c1 - pk) < sizeof park_call) {
+            memcpy(park_call, pk, (size_t)(c1 - pk));
+            park_call[c1 - pk] = 0;
+            park_nth = atoi(c1 + 1);
+            snprintf(park_path, sizeof park_path, "%s", c2 + 1);
+        }
+    }
     const char *lp = getenv("JSHIM_LOG");
     if (lp) {
         int (*o)(const char *, int, ...) = real_open64 ? real_open64 : real_open;
@@ -108,6 +138,7 @@ static void track_open(int fd, const char *path) {
         tracked[fd] = 1;
         offs[fd] = 0;
         logf_("O %d %s\n", fd, path);
+        maybe_park("open"); /* parked right after the file was opened / created */
     }
 }
 
@@ -190,6 +221,7 @@ int openat64(int dirfd, const char *path, int flags, ...) {
 int close(int fd) {
     init();
     if (fd >= 0 && fd < MAXFD && tracked[fd]) {
+        maybe_park("close");
         tracked[fd] = 0;
         logf_("C %d\n", fd);
     }
@@ -199,6 +231,7 @@ int close(int fd) {
 ssize_t write(int fd, const void *buf, size_t count) {
     init();
     if (fd >= 0 && fd < MAXFD && tracked[fd]) {
+        maybe_park("write");
         if (arm_pending_fail) {
             arm_pending_fail = 0;
             arm_kind = 0;
@@ -277,6 +310,7 @@ off_t lseek(int fd, off_t off, int whence) {
 
 static int sync_common(int fd, int (*real)(int), const char *name) {
     if (fd >= 0 && fd < MAXFD && tracked[fd]) {
+        maybe_park("fsync");
         if (arm_kind == 2) {
             arm_count++;
             if (arm_count == arm_nth) {
@@ -307,4 +341,28 @@ int ftruncate64(int fd, off64_t len) {
     init();
     if (fd >= 0 && fd < MAXFD && tracked[fd]) logf_("T %d %lld\n", fd, (long long)len);
     return real_ftruncate64(fd, len);
+}
+
+#include <sys/mman.h>
+static void *(*real_mmap)(void *, size_t, int, int, int, off_t);
+static void *(*real_mmap64)(void *, size_t, int, int, int, off64_t);
+
+void *mmap(void *addr, size_t len, int prot, int flags, int fd, off_t off) {
+    init();
+    if (!real_mmap) real_mmap = dlsym(RTLD_NEXT, "mmap");
+    if (fd >= 0 && fd < MAXFD && tracked[fd]) {
+        logf_("P %d %zu\n", fd, len);
+        maybe_park("mmap");
+    }
+    return real_mmap(addr, len, prot, flags, fd, off);
+}
+
+void *mmap64(void *addr, size_t len, int prot, int flags, int fd, off64_t off) {
+    init();
+    if (!real_mmap64) real_mmap64 = dlsym(RTLD_NEXT, "mmap64");
+    if (fd >= 0 && fd < MAXFD && tracked[fd]) {
+        logf_("P %d %zu\n", fd, len);
+        maybe_park("mmap");
+    }
+    return real_mmap64(addr, len, prot, flags, fd, off);
 }
